@@ -148,6 +148,23 @@ def gen(ctx):
     vals = [b"", b"v", b"\r\n", b"x\r\nset y 0 0 1\r\nINJECTED\r\n", b"END\r\n", b"VALUE k 0 1\r\n", "text", "é", 5, -7, 10 ** 30, b"\x00\xff" * 10]
     ints = [0, 1, -1, 2 ** 31, 2 ** 32 - 1, -2 ** 63, 2 ** 63 - 1, 2 ** 64 - 1, "5", 1.5, None, b"1"]
     cass = [0, 1, 2 ** 64 - 1, "12", b"007", "x", b"", "", -1, 1.5, None, "٣", b"1 2", "1\r\n"]
+    # long multi-key calls: every key is validated before anything is written, however long the list and wherever the bad key sits
+    for cfg in cfgs[:2]:
+        for n in (300, 513, 1025, 2050):
+            ks = ["key%d" % i for i in range(n)]
+            for bad_at in (None, n - 1, 512, 1024, n // 2):
+                if bad_at is not None and bad_at >= n:
+                    continue
+                kk = list(ks)
+                if bad_at is not None:
+                    kk[bad_at] = "bad key"
+                if n > 600 and bad_at is None:
+                    continue          # the legal long lists are covered by the two shorter sizes
+                cases.append((cfg, {"op": "delete_many", "ks": kk, "nr": bad_at is None or bad_at % 2 == 0}))
+                cases.append((cfg, {"op": "get_many", "ks": kk}))
+                if n <= 1025:
+                    cases.append((cfg, {"op": "set_many", "items": [(k_, b"v") for k_ in kk], "nr": True}))
+                    cases.append((cfg, {"op": "gets_many", "ks": kk}))
     for cfg in cfgs:
         for k in keys:
             cases.append((cfg, {"op": "get", "k": k}))
